@@ -130,13 +130,17 @@ def run_group(g, work, spec_checks, rulelog_cls, extra_cbmc=None):
         res['obligations'] = obl
         # vacuity guards
         other = [o for o in obl if o['status'] not in ('SUCCESS', 'FAILURE')]
-        if other:
+        definite = [o for o in obl if o['status'] == 'FAILURE' and o['class'] not in ('canary', 'spec_text')]
+        if other and not definite:
             raise C.Undecided(f'{len(other)} obligations with status {other[0]["status"]} (solver error / out of memory): ' + r['messages'][-300:])
+        if other:
+            # a counterexample is definitive even when the solver left other obligations undecided
+            res['reason'] = f'{len(other)} obligations left {other[0]["status"]} by the solver; {len(definite)} definite failures'
         can = [o for o in obl if o['class'] == 'canary']
         if not can:
             raise C.Undecided('no reachability canary in this group')
         for o in can:
-            if o['status'] != 'FAILURE':
+            if o['status'] != 'FAILURE' and not definite:
                 raise C.Undecided(f'reachability canary {o["name"]} did not fail: requires/assumptions are contradictory (vacuous proof)')
         nloop = len({o['name'].rsplit('.', 1)[0] + o['function'] for o in obl if o['class'] == 'loop_invariant_step'})
         if g.expect_loops and not any(o['class'] == 'loop_invariant_step' for o in obl):
@@ -144,9 +148,6 @@ def run_group(g, work, spec_checks, rulelog_cls, extra_cbmc=None):
         if b.get('min_obligations') and len(obl) < b['min_obligations']:
             raise C.Undecided(f'only {len(obl)} obligations generated, expected at least {b["min_obligations"]}')
         real_fail = [o for o in obl if o['status'] == 'FAILURE' and o['class'] not in ('canary', 'spec_text')]
-        other = [o for o in obl if o['status'] not in ('SUCCESS', 'FAILURE')]
-        if other:
-            raise C.Undecided(f'{len(other)} obligations with status {other[0]["status"]}')
         res['status'] = 'failed' if real_fail else 'ok'
     except (C.Undecided, ExtractError, MirrorError, LoopMapError) as e:
         res['status'] = 'undecided'
